@@ -105,6 +105,9 @@ class _SymRangeIter:
 def sym_len(x):
     if isinstance(x, SymSeq):
         return x._len()
+    f = getattr(x, "_sym_len", None)       # other proxies with a symbolic length (e.g. models.SymPairSeq)
+    if f is not None:
+        return f()
     return _b.len(x)
 
 
